@@ -1,5 +1,6 @@
 import N0Verif.Proofs.CsvFile
 import N0Verif.Proofs.CsvEnc
+import N0Verif.Proofs.CsvReader
 /-!
 # C14 — loading a CSV file reproduces the saved table under every header mode
 
@@ -16,7 +17,7 @@ record is the insertion-ordered list of `(key, cell or None)`; `zipPad names row
 (characterised by `C14_padding`, `C14_surplus_dropped`), `cellAt hdr row c` the cell of column `c`.
 -/
 namespace N0.C14
-open N0 N0.Py N0.Csv N0.CsvFile N0.C13
+open N0 N0.Py N0.Csv N0.CsvFile N0.C13 N0.CsvReader
 
 /-- delimiters of the property: a single character, not the quote, CR, LF or U+FEFF -/
 def GoodDelim14 (d : Char) : Prop := GoodDelim d ∧ d ≠ bomChar
@@ -355,5 +356,467 @@ example : AsciiTransparent enc1 := by
     · simp at hb; subst hb; decide
 
 end NonVacuity
+
+/-! ## "… and all agree with the standard csv reader"
+
+`readerRecords d lines` is `list(csv.reader(lines, delimiter=d, strict=True))` (model of CPython's
+`_csv.c` state machine, `Model/CsvReader.lean`), `RErr.csv` is `csv.Error`. -/
+
+/-- **C14 (the line parsers agree, library generator).**  On every line the library generator
+produces from a row of fields without line breaks (any CR/LF line ending, also none), `csv.reader`
+and `parse_complex_csv_line` both return exactly the row.  The row `['']` is excluded: the library
+writes it as a blank line (`C14_reader_blank_line`). -/
+theorem C14_agrees_with_csv_reader (d : Char) (hd : GoodDelim d) (row : List Str) (hrow : row ≠ [])
+    (hlone : row ≠ [[]]) (hf : ∀ g ∈ row, NoBreak g) (eol : Str) (he : IsEol eol) :
+    readerRecords d [gen d row eol] = .ok [row] ∧ parse d (gen d row eol) = .ok row := by
+  refine ⟨?_, C13_roundtrip d hd row hrow hf eol he⟩
+  cases row with
+  | nil => exact absurd rfl hrow
+  | cons f fs =>
+    unfold gen
+    simp only
+    rw [gen_acc_dropLast]
+    unfold readerRecords
+    rw [csvr_reader_rowStr d hd _ (needsQuote_adequate d) f fs hf (by
+      intro h1 h2; subst h1; subst h2; exact absurd rfl hlone) eol he]
+
+/-- **C14 (the line parsers agree, csv.writer).**  The same for every line `csv.writer`
+(`QUOTE_MINIMAL`) writes — `save_csv` writes its files with it — for every non-empty row. -/
+theorem C14_agrees_with_csv_reader_writer (d : Char) (hd : GoodDelim d) (row : List Str)
+    (hrow : row ≠ []) (hf : ∀ g ∈ row, NoBreak g) (term : Str) (he : IsEol term) :
+    readerRecords d [writerLine d term row] = .ok [row] ∧ parse d (writerLine d term row) = .ok row := by
+  refine ⟨?_, C13_roundtrip_writer d hd row hrow hf term he⟩
+  cases row with
+  | nil => exact absurd rfl hrow
+  | cons f fs =>
+    unfold writerLine
+    simp only
+    rw [join_eq_rowStr]
+    unfold readerRecords
+    rw [csvr_reader_rowStr d hd _ (writer_adequate d term _) f fs hf (by
+      intro h1 h2; subst h1; subst h2; simp [writerNeedsQuote]) term he]
+
+/-- the quoted field at the end of `body` is not closed (the library parser's state after `body`) -/
+def OpenQuote (d : Char) (body : Str) : Prop :=
+  ∃ st, run d St.init body = .ok st ∧ st.qb = true ∧ st.ex = false
+
+/-- **C14 (where the two line parsers agree, exactly).**  On an arbitrary physical line
+`body ++ eol` (`body` not empty, no line break inside): the library parser refuses it
+(`ValueError`) only if `csv.reader` does (`csv.Error`); if the library parser accepts it and the
+last quoted field is closed, `csv.reader` returns the same fields; if the last quoted field is
+still open, the library parser accepts the line and `csv.reader` refuses it (strict mode,
+"unexpected end of data"). -/
+theorem C14_reader_vs_parse (d : Char) (hd : GoodDelim d) (body : Str) (hb : NoBreak body)
+    (hne : body ≠ []) (eol : Str) (he : IsEol eol) :
+    (∀ e, parse d (body ++ eol) = .error e → readerRecords d [body ++ eol] = .error .csv)
+    ∧ (∀ fs, parse d (body ++ eol) = .ok fs → ¬ OpenQuote d body →
+        readerRecords d [body ++ eol] = .ok [fs])
+    ∧ (OpenQuote d body → readerRecords d [body ++ eol] = .error .csv
+        ∧ ∃ fs, parse d (body ++ eol) = .ok fs) := by
+  have hp : parse d (body ++ eol) = (run d St.init body >>= fun st => pure (st.out ++ [st.field])) := by
+    unfold parse
+    rw [rstrip_crlf_append body eol hb he]
+  have hr := csvr_reader_line d hd body hb hne eol he
+  unfold readerRecords
+  rw [hr, hp]
+  cases hrun : run d St.init body with
+  | error e =>
+    refine ⟨fun _ _ => rfl, ?_, ?_⟩
+    · intro fs h; simp [bind, Except.bind] at h
+    · rintro ⟨st, h, _⟩; rw [hrun] at h; cases h
+  | ok st =>
+    simp only [bind, Except.bind, pure, Except.pure]
+    refine ⟨fun e h => (by cases h), ?_, ?_⟩
+    · intro fs h hopen
+      cases h
+      have : (st.qb && !st.ex) = false := by
+        cases hq : st.qb <;> cases hx : st.ex <;> simp
+        exact hopen ⟨st, hrun, hq, hx⟩
+      simp [this]
+    · rintro ⟨st', h, hq, hx⟩
+      rw [hrun] at h
+      cases h
+      simp [hq, hx]
+
+/-- **C14 (closing the open quote).**  In the third case of `C14_reader_vs_parse` the library
+parser behaves as if the missing closing quote were there: with it, `csv.reader` returns the
+fields the library parser returns without it. -/
+theorem C14_reader_open_quote_closed (d : Char) (hd : GoodDelim d) (body : Str) (hb : NoBreak body)
+    (eol : Str) (he : IsEol eol) (ho : OpenQuote d body) :
+    ∃ fs, parse d (body ++ eol) = .ok fs ∧ readerRecords d [body ++ ['"'] ++ eol] = .ok [fs] := by
+  obtain ⟨st, hrun, hq, hx⟩ := ho
+  have hb' : NoBreak (body ++ ['"']) := by
+    constructor <;> intro h <;> rw [List.mem_append] at h <;> rcases h with h | h
+    · exact hb.1 h
+    · simp at h
+    · exact hb.2 h
+    · simp at h
+  have hd' : ¬ ('"' = d) := fun h => hd.1 h.symm
+  have hrun' : run d St.init (body ++ ['"']) = .ok { st with ex := true } := by
+    rw [run_append, hrun]
+    obtain ⟨field, out, qb, ex⟩ := st
+    simp only at hq hx
+    subst hq; subst hx
+    simp [bind, Except.bind, run, step, hd']
+  refine ⟨st.out ++ [st.field], ?_, ?_⟩
+  · unfold parse
+    rw [rstrip_crlf_append body eol hb he, hrun]
+    rfl
+  · unfold readerRecords
+    rw [csvr_reader_line d hd _ hb' (by simp) eol he, hrun']
+    simp [hq]
+
+/-- **C14 (blank line).**  The one other difference: on a blank line `csv.reader` yields the
+empty record `[]`, the library parser the single empty field `['']` (so `load_csv` with
+`skip_empty_lines=False` makes a record of it, `C14_keep_empty_lines`). -/
+theorem C14_reader_blank_line (d : Char) (eol : Str) (he : IsEol eol) :
+    readerRecords d [eol] = .ok [[]] ∧ parse d eol = .ok [[]] := by
+  constructor
+  · unfold readerRecords
+    rw [csvr_readerAux_cons d eol [] RSt.init (csvr_reader_blank d eol he) rfl]
+    rfl
+  · unfold parse
+    have := rstrip_crlf_append [] eol ⟨by simp, by simp⟩ he
+    rw [List.nil_append] at this
+    rw [this]
+    rfl
+
+/-- counter-example to unrestricted agreement: an unterminated quoted field -/
+theorem C14_reader_open_quote_cex :
+    parse ',' ['"', 'a', ',', 'b'] = .ok [['a', ',', 'b']]
+      ∧ readerRecords ',' [['"', 'a', ',', 'b']] = .error .csv := by decide
+
+/-- counter-example: the library generator writes the row `['']` as a blank line, which
+`csv.reader` reads as `[]` -/
+theorem C14_reader_lone_empty_cex :
+    parse ',' (gen ',' [[]] ['\n']) = .ok [[]] ∧ readerRecords ',' [gen ',' [[]] ['\n']] = .ok [[]] := by
+  decide
+
+/-- **C14 (csv.reader reads the saved file back as the table).**  Over the lines of the file
+`save_csv` wrote (text mode, `newline=''`, `utf-8-sig`), `csv.reader` yields the rows of the table,
+header first — an empty row as the empty record; with `C14_positional` / `C14_header_from_file`
+this is "`load_csv` agrees with the standard csv reader" on whole files. -/
+theorem C14_reader_reads_saved_file (d : Char) (hd : GoodDelim14 d) (eol : Str) (he : Eol eol)
+    (bom : Bool) (header : Option (List Str)) (rows : List (List Str))
+    (hc : CellsOK (allRows header rows)) :
+    readerRecords d (nlLines (decodeSig (fileOf bom d eol header rows)))
+      = .ok (allRows header rows) := by
+  rw [fileOf_eq, csvr_nlLines_file d hd.1 hd.2 eol he bom _ hc.1 hc.2]
+  unfold readerRecords
+  rw [csvr_readerAux_written d hd.1 eol he.isEol _ hc.1]
+
+section NonVacuityReader
+example : readerRecords ',' [gen ',' [['a', ',', '"'], ['"'], [], ['"', 'x', '"']] ['\r', '\n']]
+    = .ok [[['a', ',', '"'], ['"'], [], ['"', 'x', '"']]] := by decide
+example : readerRecords ';' [writerLine ';' ['\n'] [[]]] = .ok [[[]]] := by decide
+-- all three clauses of `C14_reader_vs_parse` are inhabited
+example : parse ',' ['"', 'a', '"', 'b'] = .error .ValueError
+    ∧ readerRecords ',' [['"', 'a', '"', 'b']] = .error .csv := by decide
+example : ¬ OpenQuote ',' ['a', '"', 'b'] := by
+  rintro ⟨st, h, hq, _⟩
+  have : run ',' St.init ['a', '"', 'b'] = .ok ⟨['a', '"', 'b'], [], false, false⟩ := by decide
+  rw [this] at h; cases h; cases hq
+example : OpenQuote ',' ['"', 'a'] := ⟨⟨['a'], [], true, false⟩, by decide, rfl, rfl⟩
+-- a record over two physical lines (outside the theorems, inside the model)
+example : readerRecords ',' [['"', 'a', '\n'], ['b', '"', ',', 'c', '\n']]
+    = .ok [[['a', '\n', 'b'], ['c']]] := by decide
+end NonVacuityReader
+
+/-! ## load_native_csv (csv.DictReader) on saved files
+
+`nativeCsv no file` is `list(load_native_csv(path, …))` (model in `Model/CsvReader.lean`, with
+fix C14-f).  A `DictReader` row `nativeRec names row` is the named part `zipPad names row`
+(`C14_native_record`) plus the surplus cells under the key `None`; "the same records as
+`load_csv`" is equality of the named parts (`NRec.row`). -/
+
+/-- a `DictReader` row over unique names: the named part is `load_csv`'s record, the surplus
+cells (which `load_csv` drops) are kept under the key `None` -/
+theorem C14_native_record (names : List Str) (hn : names.Nodup) (row : List Str) :
+    (nativeRec names row).row = zipPad (names.map Key.name) row
+      ∧ (nativeRec names row).rest
+          = if names.length < row.length then some (row.drop names.length) else none := by
+  rw [nativeRec_nodup names hn]
+  exact ⟨rfl, rfl⟩
+
+/-- **C14 (load_native_csv, header given and in the file).**  `column_names = hdr` and
+`contains_header` true (the default): the header line is checked and skipped, blank lines are
+skipped, one row per non-empty data row — the records `load_csv` yields in the same mode. -/
+theorem C14_native_header_given_both (d : Char) (hd : GoodDelim14 d) (eol : Str) (he : Eol eol)
+    (bom : Bool) (hdr : List Str) (hne : hdr ≠ []) (hnd : hdr.Nodup) (rows : List (List Str))
+    (hc : CellsOK (hdr :: rows)) (re : Bool)
+    (o : Opts) (hp : Plain o d) (hb : o.binary = false) (hru : o.returnUnknown = false)
+    (hm : Given o hdr hdr) :
+    nativeCsv { columnNames := .list hdr, delim := d, containsHeader := true, raiseExc := re }
+        (fileOf bom d eol (some hdr) rows)
+      = .ok ((dataRows rows).map (nativeRec hdr))
+    ∧ records (loadCsv o (fileOf bom d eol (some hdr) rows))
+      = .ok (((dataRows rows).map (nativeRec hdr)).map NRec.row) := by
+  constructor
+  · unfold fileOf
+    rw [saveCsv_header d eol hdr rows hne]
+    obtain ⟨h1, h2⟩ := csvr_native_file
+      { columnNames := .list hdr, delim := d, containsHeader := true, raiseExc := re } d hd.1 hd.2
+      rfl eol he bom (hdr :: rows) hc.1 hc.2
+    rw [h1]
+    exact csvr_native_given_header _ hdr hne hnd rfl rfl _ rows h2
+  · rw [C14_header_given_both d hd eol he bom hdr hne hnd rows hc o hp hb hru hm, List.map_map]
+    congr 1
+    apply List.map_congr_left
+    intro r _
+    exact ((C14_native_record hdr hnd r).1).symm
+
+/-- **C14 (load_native_csv, names given, no header line).**  `column_names = names`,
+`contains_header` false: every non-empty row is a record keyed by the names (no condition on the
+first row — nothing is looked for); under the hypotheses of `C14_header_given_only` these are
+`load_csv`'s records. -/
+theorem C14_native_names_only (d : Char) (hd : GoodDelim14 d) (eol : Str) (he : Eol eol)
+    (bom : Bool) (names : List Str) (hsn : names.Nodup) (rows : List (List Str))
+    (hc : CellsOK rows) (re : Bool) :
+    nativeCsv { columnNames := .list names, delim := d, containsHeader := false, raiseExc := re }
+        (fileOf bom d eol none rows)
+      = .ok ((dataRows rows).map (nativeRec names))
+    ∧ ∀ (o : Opts) (first : List Str) (rest : List (List Str)) (mand : MandArg),
+        names ≠ [] → dataRows rows = first :: rest → (∃ m ∈ names, m ∉ first) → Plain o d →
+        o.binary = false → (mand = .none ∨ mand = .bool false) → NamesOnly o names mand →
+        records (loadCsv o (fileOf bom d eol none rows))
+          = .ok (((dataRows rows).map (nativeRec names)).map NRec.row) := by
+  constructor
+  · unfold fileOf
+    rw [saveCsv_none]
+    obtain ⟨h1, h2⟩ := csvr_native_file
+      { columnNames := .list names, delim := d, containsHeader := false, raiseExc := re } d hd.1 hd.2
+      rfl eol he bom rows hc.1 hc.2
+    rw [h1]
+    exact csvr_native_names_only _ names hsn rfl rfl _ rows h2
+  · intro o first rest mand hs hrows hmiss hp hb hmand hm
+    rw [C14_header_given_only d hd eol he bom names hs hsn rows hc first rest hrows hmiss o hp hb
+      mand hmand hm, hrows, List.map_map]
+    congr 1
+    apply List.map_congr_left
+    intro r _
+    exact ((C14_native_record names hsn r).1).symm
+
+/-- **C14 (load_native_csv, header taken from the file).**  `column_names` absent (with fix
+C14-f: whatever `contains_header`, also the default `True`): the first line gives the names; the
+records are those of `load_csv` with the header taken from the file. -/
+theorem C14_native_header_from_file (d : Char) (hd : GoodDelim14 d) (eol : Str) (he : Eol eol)
+    (bom : Bool) (hdr : List Str) (hne : hdr ≠ []) (hnd : hdr.Nodup) (rows : List (List Str))
+    (hc : CellsOK (hdr :: rows)) (ch re : Bool)
+    (o : Opts) (hp : Plain o d) (hb : o.binary = false) (hcn : o.columnNames = .none)
+    (hm : FromFile o hdr) :
+    nativeCsv { columnNames := .none, delim := d, containsHeader := ch, raiseExc := re }
+        (fileOf bom d eol (some hdr) rows)
+      = .ok ((dataRows rows).map (nativeRec hdr))
+    ∧ records (loadCsv o (fileOf bom d eol (some hdr) rows))
+      = .ok (((dataRows rows).map (nativeRec hdr)).map NRec.row) := by
+  constructor
+  · unfold fileOf
+    rw [saveCsv_header d eol hdr rows hne]
+    obtain ⟨h1, h2⟩ := csvr_native_file
+      { columnNames := .none, delim := d, containsHeader := ch, raiseExc := re } d hd.1 hd.2
+      rfl eol he bom (hdr :: rows) hc.1 hc.2
+    rw [h1]
+    exact csvr_native_from_file _ hdr rfl _ rows h2
+  · rw [C14_header_from_file d hd eol he bom hdr hne hnd rows hc o hp hb hcn hm, List.map_map]
+    congr 1
+    apply List.map_congr_left
+    intro r _
+    exact ((C14_native_record hdr hnd r).1).symm
+
+/-- **C14 (load_native_csv refuses a missing header).**  `column_names = names`,
+`contains_header` true, but the first non-blank row is not exactly the names: `ReferenceError`,
+or nothing at all with `raise_exception=False` — as `load_csv` (`C14_missing_mandatory_refused`). -/
+theorem C14_native_missing_refused (d : Char) (hd : GoodDelim14 d) (eol : Str) (he : Eol eol)
+    (bom : Bool) (names : List Str) (hsn : names.Nodup) (rows : List (List Str))
+    (hc : CellsOK rows) (first : List Str) (rest : List (List Str))
+    (hrows : dataRows rows = first :: rest) (hdiff : first ≠ names) (re : Bool) :
+    nativeCsv { columnNames := .list names, delim := d, containsHeader := true, raiseExc := re }
+        (fileOf bom d eol none rows)
+      = if re then .error (.py .ReferenceError) else .ok [] := by
+  unfold fileOf
+  rw [saveCsv_none]
+  obtain ⟨h1, h2⟩ := csvr_native_file
+    { columnNames := .list names, delim := d, containsHeader := true, raiseExc := re } d hd.1 hd.2
+    rfl eol he bom rows hc.1 hc.2
+  rw [h1]
+  exact csvr_native_refused _ names hsn rfl rfl _ rows first rest hrows hdiff h2
+
+/-! ## load_simple_csv -/
+
+/-- **C14 (load_simple_csv = load_csv without quotes).**  On **every** file that contains no
+quote character and for **every** option record (text mode; `load_simple_csv` has no
+`return_unknown_fields`), `load_simple_csv` — plain `split` — returns what `load_csv` returns:
+records, original lines or the exception. -/
+theorem C14_simple_no_quote (o : Opts) (hb : o.binary = false) (hru : o.returnUnknown = false)
+    (file : Str) (hq : '"' ∉ file) : loadSimple o file = loadCsv o file :=
+  csvr_loadSimple_no_quote o hb hru file hq
+
+/-- **C14 (load_simple_csv on saved tables).**  For a table saved by `save_csv` whose cells and
+names contain neither the delimiter nor a quote (and no row is the single empty cell, which
+`csv.writer` writes as `""`): the same result as `load_csv` under every header mode and every
+strip / skip option — so all the C14 theorems apply to `load_simple_csv`. -/
+theorem C14_simple_saved_table (d : Char) (hd : GoodDelim14 d) (eol : Str) (he : Eol eol)
+    (bom : Bool) (header : Option (List Str)) (rows : List (List Str))
+    (hr : ∀ r ∈ allRows header rows, (∀ f ∈ r, PlainCell d f) ∧ r ≠ [[]])
+    (o : Opts) (hb : o.binary = false) (hru : o.returnUnknown = false) :
+    loadSimple o (fileOf bom d eol header rows) = loadCsv o (fileOf bom d eol header rows) := by
+  apply C14_simple_no_quote o hb hru
+  rw [fileOf_eq]
+  exact csvr_written_no_quote d hd.1.1 eol he _ hr bom
+
+/-- counter-example outside that domain: a quoted cell keeps its quotes under `load_simple_csv` -/
+theorem C14_simple_quote_cex :
+    records (loadSimple { } ['"', 'a', '"', '\n']) = .ok [[(.pos 0, some ['"', 'a', '"'])]]
+      ∧ records (loadCsv { } ['"', 'a', '"', '\n']) = .ok [[(.pos 0, some ['a'])]] :=
+  ⟨by decide, by decide⟩
+
+/-! ## strip_field / strip_line / skip_empty_lines=False in closed form -/
+
+/-- **C14 (strip_field).**  `strip_field=True` (header taken from the file, announced in one of
+the documented ways for the *stripped* names): names and cells are the written ones with their
+surrounding blanks removed (`pyStrip` = `str.strip()`; see `C14_strip_padded`). -/
+theorem C14_strip_field (d : Char) (hd : GoodDelim14 d) (eol : Str) (he : Eol eol) (bom : Bool)
+    (hdr : List Str) (hne : hdr ≠ []) (hnd : (hdr.map pyStrip).Nodup) (rows : List (List Str))
+    (hc : CellsOK (hdr :: rows))
+    (o : Opts) (hp : StripField o d) (hcn : o.columnNames = .none)
+    (hm : FromFile o (hdr.map pyStrip)) :
+    records (loadCsv o (fileOf bom d eol (some hdr) rows))
+      = .ok ((dataRows rows).map
+          (fun r => zipPad ((hdr.map pyStrip).map Key.name) (r.map pyStrip))) := by
+  obtain ⟨n, hn, hcn', hdec⟩ := fromFile_norm o (hdr.map pyStrip) hcn hm
+  unfold fileOf
+  rw [saveCsv_header d eol hdr rows hne,
+    csvr_loadCsv_strip_field o d hd.1 hd.2 hp eol he bom (hdr :: rows) hc.1 hc.2 n hn hdr
+      (dataRows rows) (dataRows_cons_ne hdr rows hne),
+    outcome_header o n _ _ hdec hnd hcn', List.map_map]
+  rfl
+
+/-- **C14 (strip_field, positional).**  The same without a header: positions of the first row. -/
+theorem C14_strip_field_positional (d : Char) (hd : GoodDelim14 d) (eol : Str) (he : Eol eol)
+    (bom : Bool) (rows : List (List Str)) (hc : CellsOK rows) (first : List Str)
+    (rest : List (List Str)) (hrows : dataRows rows = first :: rest)
+    (o : Opts) (hp : StripField o d) (hm : NoHeaderOpts o) :
+    records (loadCsv o (fileOf bom d eol none rows))
+      = .ok ((first :: rest).map (fun r => zipPad (positions first.length) (r.map pyStrip))) := by
+  obtain ⟨n, hn, hcn', hdec⟩ := noHeader_norm o hm (first.map pyStrip)
+  unfold fileOf
+  rw [saveCsv_none,
+    csvr_loadCsv_strip_field o d hd.1 hd.2 hp eol he bom rows hc.1 hc.2 n hn first rest hrows]
+  have hdn : dataNames n (first.map pyStrip) = positions first.length := by
+    simp [dataNames, hcn']
+  rw [outcome_data o n _ _ hdec (by rw [hdn]; exact nodup_positions _), hdn]
+  simp [List.map_map]
+
+/-- what `pyStrip` removes: exactly the blanks around a core that has none at its ends -/
+theorem C14_strip_padded (l c r : Str) (hl : ∀ x ∈ l, isPySpace x = true)
+    (hr : ∀ x ∈ r, isPySpace x = true) (hc : OuterClean isPySpace c) :
+    pyStrip (l ++ c ++ r) = c :=
+  stripWith_padded isPySpace l c r hl hr hc
+
+/-- **C14 (strip_line on clean lines).**  `strip_line=True` strips the *line*, not the cells; on
+a saved table none of whose written lines begins or ends with a blank it changes nothing, under
+every header option. -/
+theorem C14_strip_line_clean (d : Char) (hd : GoodDelim14 d) (eol : Str) (he : Eol eol) (bom : Bool)
+    (header : Option (List Str)) (rows : List (List Str)) (hc : CellsOK (allRows header rows))
+    (hcl : ∀ r ∈ allRows header rows, OuterClean isPySpace (bodyOf d LF r))
+    (o : Opts) (hp : Plain o d) (hb : o.binary = false) :
+    records (loadCsv { o with stripLine := true } (fileOf bom d eol header rows))
+      = records (loadCsv o (fileOf bom d eol header rows)) := by
+  rw [fileOf_eq]
+  exact csvr_strip_line_clean o hb d hd.1 hd.2 hp eol he bom _ hc.1 hc.2 hcl
+
+/-- `C14_strip_line_clean` with its hypothesis on the cells: the delimiter is not a blank and no
+cell or name begins or ends with a blank -/
+theorem C14_strip_line_clean_cells (d : Char) (hd : GoodDelim14 d) (hdb : isPySpace d = false)
+    (eol : Str) (he : Eol eol) (bom : Bool)
+    (header : Option (List Str)) (rows : List (List Str)) (hc : CellsOK (allRows header rows))
+    (hcl : ∀ r ∈ allRows header rows, ∀ f ∈ r, OuterClean isPySpace f)
+    (o : Opts) (hp : Plain o d) (hb : o.binary = false) :
+    records (loadCsv { o with stripLine := true } (fileOf bom d eol header rows))
+      = records (loadCsv o (fileOf bom d eol header rows)) :=
+  C14_strip_line_clean d hd eol he bom header rows hc
+    (fun r hr => bodyOf_outerClean isPySpace d LF hdb (by decide) r (hcl r hr)) o hp hb
+
+/-- counter-example: `strip_line` is not `strip_field` — outer blanks of a line written from
+quoted cells survive, and a blank-only first cell before a blank delimiter disappears -/
+theorem C14_strip_line_cex :
+    records (loadCsv { stripLine := true, delim := '\t' } ['\t', 'a', '\n'])
+      = .ok [[(.pos 0, some ['a'])]]
+    ∧ records (loadCsv { delim := '\t' } ['\t', 'a', '\n'])
+      = .ok [[(.pos 0, some []), (.pos 1, some ['a'])]] := ⟨by decide, by decide⟩
+
+/-- **C14 (skip_empty_lines=False).**  Header taken from the file: **every** row after the header
+yields a record, in order; an empty row (a blank line) yields the record of the single empty cell
+— first name ↦ `''`, the other names ↦ `None` (`cellsOfRow [] = ['']`). -/
+theorem C14_keep_empty_lines (d : Char) (hd : GoodDelim14 d) (eol : Str) (he : Eol eol) (bom : Bool)
+    (hdr : List Str) (hne : hdr ≠ []) (hnd : hdr.Nodup) (rows : List (List Str))
+    (hc : CellsOK (hdr :: rows))
+    (o : Opts) (hp : KeepEmpty o d) (hb : o.binary = false) (hcn : o.columnNames = .none)
+    (hm : FromFile o hdr) :
+    records (loadCsv o (fileOf bom d eol (some hdr) rows))
+      = .ok (rows.map (fun r => zipPad (hdr.map Key.name) (cellsOfRow r))) := by
+  obtain ⟨n, hn, hcn', hdec⟩ := fromFile_norm o hdr hcn hm
+  unfold fileOf
+  rw [saveCsv_header d eol hdr rows hne,
+    csvr_loadCsv_keep o hb d hd.1 hd.2 hp eol he bom hdr hne rows hc.1 hc.2 n hn,
+    outcome_header o n _ _ hdec hnd hcn', List.map_map]
+  rfl
+
+/-- **C14 (skip_empty_lines=False, positional).**  No header, the first row not empty: every
+row, blank lines included, keyed by the positions of the first row.  (Blank lines *before* the
+first non-blank line are skipped whatever `skip_empty_lines`: the leading-blank loop of
+`load_csv` does not consult it — model `skipBlank`, stream `csvfile.load/*`.) -/
+theorem C14_keep_empty_lines_positional (d : Char) (hd : GoodDelim14 d) (eol : Str) (he : Eol eol)
+    (bom : Bool) (first : List Str) (hne : first ≠ []) (rest : List (List Str))
+    (hc : CellsOK (first :: rest))
+    (o : Opts) (hp : KeepEmpty o d) (hb : o.binary = false) (hm : NoHeaderOpts o) :
+    records (loadCsv o (fileOf bom d eol none (first :: rest)))
+      = .ok ((first :: rest).map (fun r => zipPad (positions first.length) (cellsOfRow r))) := by
+  obtain ⟨n, hn, hcn', hdec⟩ := noHeader_norm o hm first
+  unfold fileOf
+  rw [saveCsv_none,
+    csvr_loadCsv_keep o hb d hd.1 hd.2 hp eol he bom first hne rest hc.1 hc.2 n hn]
+  have hdn : dataNames n first = positions first.length := by simp [dataNames, hcn']
+  rw [outcome_data o n _ _ hdec (by rw [hdn]; exact nodup_positions _), hdn]
+  have : cellsOfRow first = first := by
+    cases first with
+    | nil => exact absurd rfl hne
+    | cons _ _ => rfl
+  simp [List.map_map, this]
+
+section NonVacuityReaders
+private def hdrP : List Str := [[' ', 'a'], ['b', ' ', ' ']]
+private def rowsP : List (List Str) := [[['1', ' '], [' ', '"', '2']], [], [[' ']], [['4'], [' '], ['6']]]
+
+example : StripField { stripField := true, mandatory := .bool true } ',' := ⟨rfl, rfl, rfl, rfl, rfl⟩
+example : KeepEmpty { skipEmpty := false } ',' := ⟨rfl, rfl, rfl, rfl⟩
+example : (hdrP.map pyStrip).Nodup := by decide
+example : FromFile { stripField := true, mandatory := .bool true } (hdrP.map pyStrip) := .mandatory rfl rfl
+example : records (loadCsv { stripField := true, mandatory := .bool true } (fileOf true ',' CRLF (some hdrP) rowsP))
+    = .ok [[(.name ['a'], some ['1']), (.name ['b'], some ['"', '2'])],
+           [(.name ['a'], some []), (.name ['b'], none)],
+           [(.name ['a'], some ['4']), (.name ['b'], some [])]] := by decide
+example : records (loadCsv { skipEmpty := false, mandatory := .bool true } (fileOf false ',' LF (some hdrAB) rowsX))
+    = .ok [[(.name ['a'], some ['1']), (.name ['b', ','], some ['"', '2'])],
+           [(.name ['a'], some []), (.name ['b', ','], none)],
+           [(.name ['a'], some ['3']), (.name ['b', ','], none)],
+           [(.name ['a'], some ['4']), (.name ['b', ','], some [])]] := by decide
+example : OuterClean isPySpace ['a', ' ', 'b'] := by
+  constructor <;> intro x hx <;> simp at hx <;> subst hx <;> decide
+example : PlainCell ',' ['a', ' ', 'b'] := by unfold PlainCell NoBreak; decide
+-- load_native_csv: default arguments (fix C14-f), surplus cells under the key None, blank line skipped
+example : nativeCsv { } (fileOf true ',' CRLF (some hdrAB) rowsX)
+    = .ok [⟨[(.name ['a'], some ['1']), (.name ['b', ','], some ['"', '2'])], none⟩,
+           ⟨[(.name ['a'], some ['3']), (.name ['b', ','], none)], none⟩,
+           ⟨[(.name ['a'], some ['4']), (.name ['b', ','], some [])], some [['6']]⟩] := by decide
+example : nativeCsv { columnNames := .list hdrAB } (fileOf false ',' LF none rowsX)
+    = .error (.py .ReferenceError) := by decide
+example : nativeCsv { columnNames := .list hdrAB, raiseExc := false } (fileOf false ',' LF none rowsX)
+    = .ok [] := by decide
+example : nativeCsv { } ['a', '\n', '"', 'b', '\n'] = .error .csv := by decide
+example : nativeCsv { columnNames := .list [['a'], ['a']] } [] = .error (.py .SyntaxError) := by decide
+-- load_simple_csv: binary mode cannot work (str argument to bytes.rstrip)
+example : loadSimple { binary := true } ['a', '\n'] = .error .TypeError := by decide
+end NonVacuityReaders
 
 end N0.C14
